@@ -7,7 +7,10 @@ use std::ffi::{c_void, CString};
 use std::io::{Error, ErrorKind};
 use std::mem::size_of;
 use std::path::Path;
+#[cfg(not(feature = "verif"))]
 use std::sync::atomic;
+#[cfg(feature = "verif")]
+use crate::verif::atomic;
 use std::{fs, ptr};
 
 use std::io::Seek;
@@ -80,9 +83,13 @@ impl ShmWriter {
             // readers that the memory segment is not usable yet.
             ShmWriter::wipe(path, segsize)?
         }
+        #[cfg(feature = "verif")]
+        crate::verif::stop_point("new:after_probe_or_wipe");
 
         // Memory map the file.
         let addr = ShmWriter::mmap_segment_at(path, segsize)?;
+        #[cfg(feature = "verif")]
+        crate::verif::map(addr.cast(), segsize, true);
 
         // Obtain raw pointers to relevant members in the memory map segment and create a new
         // writer.
@@ -174,7 +181,11 @@ impl ShmWriter {
 
         // Opens the file in write-only mode. Create a file if it does not exist, and truncate it
         // if it does.
+        #[cfg(feature = "verif")]
+        crate::verif::stop_point("wipe:before_create");
         let mut file = std::fs::File::create(path)?;
+        #[cfg(feature = "verif")]
+        crate::verif::stop_point("wipe:after_create");
 
         // In theory, usize may not fit within a u32. In practice, we
         let size: u32 = match segsize.try_into() {
@@ -192,15 +203,27 @@ impl ShmWriter {
 
         // Write the ShmHeader
         file.write_u32::<NativeEndian>(SHM_MAGIC[0])?; // Magic number 0
+        #[cfg(feature = "verif")]
+        crate::verif::stop_point("wipe:after_magic0");
         file.write_u32::<NativeEndian>(SHM_MAGIC[1])?; // Magic number 1
+        #[cfg(feature = "verif")]
+        crate::verif::stop_point("wipe:after_magic1");
         file.write_u32::<NativeEndian>(size)?; // Segsize
+        #[cfg(feature = "verif")]
+        crate::verif::stop_point("wipe:after_segsize");
         file.write_u16::<NativeEndian>(0)?; // Version
+        #[cfg(feature = "verif")]
+        crate::verif::stop_point("wipe:after_version");
         file.write_u16::<NativeEndian>(0)?; // Generation
+        #[cfg(feature = "verif")]
+        crate::verif::stop_point("wipe:after_generation");
 
         // Zero the rest of the segment
         let remaining = segsize - size_of::<ShmHeader>();
         let buf = vec![0; remaining];
         file.write_all(&buf)?;
+        #[cfg(feature = "verif")]
+        crate::verif::stop_point("wipe:after_zero_fill");
 
         // Make sure the amount of bytes written matches the segment size
         let pos = file.stream_position()?;
@@ -216,6 +239,8 @@ impl ShmWriter {
 
         // Sync all and drop (close) the descriptor
         file.sync_all()?;
+        #[cfg(feature = "verif")]
+        crate::verif::stop_point("wipe:after_sync");
 
         Ok(())
     }
@@ -279,7 +304,10 @@ impl ShmWrite for ShmWriter {
             };
             generation.store(gen, atomic::Ordering::Release);
 
+            #[cfg(not(feature = "verif"))]
             self.ceb.write(*ceb);
+            #[cfg(feature = "verif")]
+            crate::verif::data_write(self.ceb, ceb);
 
             // Mark the end of the update into the memory segment by incrementing the generation
             // number. Note that we skip writing a generation equals to 0 when the counter rolls
@@ -306,6 +334,8 @@ impl Drop for ShmWriter {
     /// TODO: revisit to see if this can be refactored into the MmapGuard logic implemented on the
     /// ShmReader.
     fn drop(&mut self) {
+        #[cfg(feature = "verif")]
+        crate::verif::unmap(self.addr.cast(), self.segsize);
         unsafe {
             nix::sys::mman::munmap(self.addr, self.segsize).expect("munmap");
         }
